@@ -23,6 +23,7 @@ GLOBAL_RULES = {
     'gc.collect': 'fresh:int',
     # T4: the file system answers arbitrarily (what exists is outside every contract)
     # pure string functions of the standard library (no effect, no exception for str arguments)
+    're.escape': 'pure:Str',
     'os.path.realpath': 'pure:Str', 'os.path.normpath': 'pure:Str', 'os.path.normcase': 'pure:Str', 'shlex.quote': 'pure:Str',
     'os.path.exists': 'fresh:bool', 'os.path.isfile': 'fresh:bool', 'os.path.isdir': 'fresh:bool', 'os.path.islink': 'fresh:bool',
 }
